@@ -289,3 +289,12 @@ func (p *Pool) runOne(w *worker, seq int, j *Job) JobResult {
 func IsGoFatal(log string) bool {
 	return strings.Contains(log, "fatal error:") || strings.Contains(log, "panic:") || strings.Contains(log, "SIGSEGV") || strings.Contains(log, "unexpected signal")
 }
+
+// RunHandlerForTest runs a registered job handler in the calling process (developer aid).
+func RunHandlerForTest(kind string, payload json.RawMessage) (any, error) {
+	h := handlers[kind]
+	if h == nil {
+		return nil, fmt.Errorf("unknown job kind %s", kind)
+	}
+	return h(payload)
+}
